@@ -89,6 +89,11 @@ def handle (op : String) (inp : Json) : Json :=
     let sk := keyOf inp "key"
     jobj [("ok", jb ((pkOf sk (jstr inp "mode")).validate (jbig inp "c")))]
   | "validate_nil" => jobj [("ok", jb false)]
+  | "validate_batch" =>
+    let sk := keyOf inp "key"
+    let pk := pkOf sk (jstr inp "mode")
+    -- `ValidateCiphertexts(c₁, …, cₖ)`: every member is valid
+    jobj [("ok", jb ((jarr inp "cs").all fun x => pk.validate (parseSHex (x.getStr?.toOption.getD "")).2))]
   | "decrand" =>
     let sk := keyOf inp "key"
     let c := jbig inp "c"
